@@ -12,9 +12,9 @@ import (
 	"time"
 	"unicode/utf8"
 
-	"verifmc/wsref"
 	"verifmc/engine"
 	"verifmc/vstream"
+	"verifmc/wsref"
 )
 
 var c06UTF8Payloads = []struct {
